@@ -16,9 +16,12 @@ import (
 	"fmt"
 	"go/ast"
 	"go/parser"
+	"go/printer"
 	"go/token"
 	"os"
+	"path/filepath"
 	"sort"
+	"strconv"
 	"strings"
 )
 
@@ -31,6 +34,163 @@ type tr struct {
 	errs   []string
 	gen    bool // function is generic in T
 	copies int
+	fn     string
+}
+
+// error-identity facts (rendered into the generated module, evaluated by Hive/Model/SafeMathErr.lean)
+var (
+	sentinelNames = map[string]bool{}
+	sites         []string
+)
+
+func leanStr(s string) string { return strconv.Quote(s) }
+
+// countW returns the verbs of a literal format string in order (one byte per verb), false when the format uses
+// explicit argument indexes or `*` widths (then the verb-to-argument mapping is not positional).
+func fmtVerbs(f string) ([]byte, bool) {
+	var verbs []byte
+	for i := 0; i < len(f); i++ {
+		if f[i] != '%' {
+			continue
+		}
+		i++
+		for i < len(f) && strings.IndexByte("+-# 0123456789.", f[i]) >= 0 {
+			i++
+		}
+		if i >= len(f) {
+			return nil, false
+		}
+		if f[i] == '%' {
+			continue
+		}
+		if f[i] == '[' || f[i] == '*' {
+			return nil, false
+		}
+		verbs = append(verbs, f[i])
+	}
+
+	return verbs, true
+}
+
+// errToks renders an error-valued expression in postfix form (see Hive/Model/SafeMathErr.lean).
+func errToks(fset *token.FileSet, e ast.Expr, params map[string]bool) []string {
+	src := func() string {
+		var b strings.Builder
+		printer.Fprint(&b, fset, e)
+
+		return b.String()
+	}
+	switch e := e.(type) {
+	case *ast.ParenExpr:
+		return errToks(fset, e.X, params)
+	case *ast.Ident:
+		if params[e.Name] {
+			return []string{".param " + leanStr(e.Name)}
+		}
+		if sentinelNames[e.Name] {
+			return []string{".sentinel " + leanStr(e.Name)}
+		}
+	case *ast.CallExpr:
+		sel, ok := e.Fun.(*ast.SelectorExpr)
+		if !ok {
+			break
+		}
+		pk, ok := sel.X.(*ast.Ident)
+		if !ok {
+			break
+		}
+		name := pk.Name + "." + sel.Sel.Name
+		switch name {
+		case "ierrors.New", "errors.New":
+			return []string{".fresh"}
+		case "ierrors.Errorf", "fmt.Errorf":
+			if len(e.Args) == 0 {
+				break
+			}
+			lit, ok := e.Args[0].(*ast.BasicLit)
+			if !ok || lit.Kind != token.STRING {
+				return []string{".errorfDyn"}
+			}
+			f, err := strconv.Unquote(lit.Value)
+			if err != nil {
+				break
+			}
+			verbs, ok := fmtVerbs(f)
+			if !ok || len(verbs) > len(e.Args)-1 || e.Ellipsis != token.NoPos {
+				break
+			}
+			var out []string
+			n := 0
+			for i, v := range verbs {
+				if v == 'w' {
+					out = append(out, errToks(fset, e.Args[1+i], params)...)
+					n++
+				}
+			}
+			if n == 0 {
+				return []string{".fresh"}
+			}
+
+			return append(out, fmt.Sprintf(".errorf %d", n))
+		case "ierrors.Join", "errors.Join":
+			if e.Ellipsis != token.NoPos {
+				break
+			}
+			var out []string
+			for _, a := range e.Args {
+				out = append(out, errToks(fset, a, params)...)
+			}
+
+			return append(out, fmt.Sprintf(".join %d", len(e.Args)))
+		default:
+			if pk.Name == "ierrors" && len(e.Args) >= 1 {
+				return append(errToks(fset, e.Args[0], params), ".call "+leanStr(sel.Sel.Name))
+			}
+		}
+	}
+
+	return []string{".opaque " + leanStr(src())}
+}
+
+// wrappers renders the return statements of the error-wrapping functions of the ierrors package (default build:
+// ierrors_no_stacktrace.go) whose first parameter is an error.
+func wrappers(path string) (string, error) {
+	fset := token.NewFileSet()
+	f, err := parser.ParseFile(fset, path, nil, 0)
+	if err != nil {
+		return "", err
+	}
+	var items []string
+	for _, d := range f.Decls {
+		fd, ok := d.(*ast.FuncDecl)
+		if !ok || fd.Recv != nil || fd.Body == nil || !fd.Name.IsExported() || len(fd.Type.Params.List) == 0 {
+			continue
+		}
+		first := fd.Type.Params.List[0]
+		if id, ok := first.Type.(*ast.Ident); !ok || id.Name != "error" || len(first.Names) != 1 {
+			continue
+		}
+		params := map[string]bool{first.Names[0].Name: true}
+		var others []string
+		for _, p := range fd.Type.Params.List[1:] {
+			for _, n := range p.Names {
+				params[n.Name] = true
+				others = append(others, leanStr(n.Name))
+			}
+		}
+		var rets []string
+		ast.Inspect(fd.Body, func(n ast.Node) bool {
+			if r, ok := n.(*ast.ReturnStmt); ok && len(r.Results) == 1 {
+				rets = append(rets, "["+strings.Join(errToks(fset, r.Results[0], params), ", ")+"]")
+			}
+
+			return true
+		})
+		items = append(items, fmt.Sprintf("  { name := %s, first := %s, others := [%s],\n    rets := [%s] }", leanStr(fd.Name.Name), leanStr(first.Names[0].Name),
+			strings.Join(others, ", "), strings.Join(rets, ",\n             ")))
+	}
+
+	return "[\n" + strings.Join(items, ",\n") + "]", nil
 }
 
 func (t *tr) fail(n ast.Node, msg string) {
@@ -420,10 +580,18 @@ func (t *tr) ret(s *ast.ReturnStmt) string {
 
 		return "Res.ok " + e
 	}
+	site := func(res string) {
+		sites = append(sites, fmt.Sprintf("  { fn := %s, line := %d, res := %s, toks := [%s] }", leanStr(t.fn), t.fset.Position(s.Pos()).Line, leanStr(res),
+			strings.Join(errToks(t.fset, s.Results[1], nil), ", ")))
+	}
 	switch {
 	case mentions(s.Results[1], "ErrIntegerOverflow"):
+		site("overflow")
+
 		return "Res.overflow"
 	case mentions(s.Results[1], "ErrIntegerDivisionByZero"):
+		site("divzero")
+
 		return "Res.divzero"
 	}
 	t.fail(s, "error result mentions neither ErrIntegerOverflow nor ErrIntegerDivisionByZero")
@@ -443,16 +611,41 @@ func main() {
 		os.Exit(1)
 	}
 	var out strings.Builder
-	out.WriteString("import Hive.Base.GoInt\n/-! GENERATED by harness/tools/translate-safemath from core/safemath/safe_math.go — do not edit. -/\n")
+	out.WriteString("import Hive.Base.GoInt\nimport Hive.Model.SafeMathErr\n/-! GENERATED by harness/tools/translate-safemath from core/safemath/safe_math.go — do not edit. -/\n")
 	out.WriteString("namespace Hive.Gen.SafeMath\nopen Hive.GoInt\n\n")
 	var allErrs []string
 	var names []string
+	// package-level error variables: names first (an error expression may mention any of them), then definitions
+	var sentinelDefs []string
+	for _, d := range f.Decls {
+		if gd, ok := d.(*ast.GenDecl); ok && gd.Tok == token.VAR {
+			for _, sp := range gd.Specs {
+				for _, n := range sp.(*ast.ValueSpec).Names {
+					sentinelNames[n.Name] = true
+				}
+			}
+		}
+	}
+	for _, d := range f.Decls {
+		if gd, ok := d.(*ast.GenDecl); ok && gd.Tok == token.VAR {
+			for _, sp := range gd.Specs {
+				vs := sp.(*ast.ValueSpec)
+				for i, n := range vs.Names {
+					toks := []string{".opaque \"(no initialiser)\""}
+					if len(vs.Values) == len(vs.Names) {
+						toks = errToks(fset, vs.Values[i], nil)
+					}
+					sentinelDefs = append(sentinelDefs, fmt.Sprintf("(%s, [%s])", leanStr(n.Name), strings.Join(toks, ", ")))
+				}
+			}
+		}
+	}
 	for _, d := range f.Decls {
 		fd, ok := d.(*ast.FuncDecl)
 		if !ok || fd.Recv != nil || fd.Body == nil {
 			continue
 		}
-		t := &tr{fset: fset, env: map[string]ty{}}
+		t := &tr{fset: fset, env: map[string]ty{}, fn: fd.Name.Name}
 		var params []string
 		if fd.Type.TypeParams != nil {
 			if len(fd.Type.TypeParams.List) != 1 || len(fd.Type.TypeParams.List[0].Names) != 1 || fd.Type.TypeParams.List[0].Names[0].Name != "T" {
@@ -487,7 +680,26 @@ func main() {
 		allErrs = append(allErrs, t.errs...)
 		names = append(names, fd.Name.Name)
 	}
-	fmt.Fprintf(&out, "def translated : List String := [%s]\n\nend Hive.Gen.SafeMath\n", `"`+strings.Join(names, `", "`)+`"`)
+	fmt.Fprintf(&out, "def translated : List String := [%s]\n\n", `"`+strings.Join(names, `", "`)+`"`)
+	// error identities
+	ws, err := wrappers(filepath.Join(filepath.Dir(os.Args[1]), "..", "..", "ierrors", "ierrors_no_stacktrace.go"))
+	if err != nil {
+		allErrs = append(allErrs, "ierrors wrappers: "+err.Error())
+	}
+	var uniq []string
+	seenSite := map[string]bool{}
+	for _, s := range sites {
+		if !seenSite[s] {
+			seenSite[s] = true
+			uniq = append(uniq, s)
+		}
+	}
+	out.WriteString("open Hive.SafeMathErr in\n/-- the package-level error variables of safe_math.go and their definitions -/\n")
+	fmt.Fprintf(&out, "def sentinelDefs : List (String × List Tok) := [%s]\n\n", strings.Join(sentinelDefs, ", "))
+	out.WriteString("open Hive.SafeMathErr in\n/-- the return statements of the exported ierrors functions (default build, ierrors_no_stacktrace.go) whose first parameter is an error -/\n")
+	fmt.Fprintf(&out, "def ierrorsWrappers : List Wrapper := %s\n\n", ws)
+	out.WriteString("open Hive.SafeMathErr in\n/-- every `return …, <error>` of the translated functions -/\n")
+	fmt.Fprintf(&out, "def errorSites : List Site := [\n%s]\n\nend Hive.Gen.SafeMath\n", strings.Join(uniq, ",\n"))
 	if len(allErrs) > 0 {
 		for _, e := range allErrs {
 			fmt.Fprintln(os.Stderr, "translate-safemath:", e)
